@@ -129,7 +129,9 @@ def replay_filters(ctx, recs, worst):
                 continue
             got = [sl.sig(v) for v in out]
             if rec["raised"]:
-                ok = got[:len(exp)] == exp       # what follows the exception is not fixed by the statement
+                # the selector's exception reaches the caller (a Selector made from a raw specification has the
+                # default raise_on_error=True); what was yielded before it is exact
+                ok = got[:len(exp)] == exp and bool(raised)
             else:
                 ok = got == exp and not raised
             # the values that pass are the filled objects themselves
@@ -309,7 +311,11 @@ def replay_classes(ctx, recs, rnd, worst):
             # a second occurrence of a context has its keys inserted in the opposite order
             c = rev_keys(c) if ci in seen else json.loads(json.dumps(c))
             seen.add(ci)
-            values.append(pos if (not c and pos % 2) else (pos, c))
+            if c:
+                values.append((pos, c))
+            else:
+                # values without a context of their own, in every shape get_context answers {} for
+                values.append([(pos, c), pos, [pos, {"a": 1}], (pos, "a"), (pos, {"a": 1}, 0)][pos % 5])
         expected = {}
         for pos, ci in enumerate(order):
             expected.setdefault(cls[ci], []).append(pos)
